@@ -485,6 +485,44 @@ def ctor_spec(c):
     return None
 
 
+def generators_mismatch(f):
+    """C11/C19: on the real crates the generators of a parameter set differ from the independently computed documented derivation
+    (SHAKE256 / SHA3-512 hash-to-group), coincide, are the identity, or the tables / compressed forms do not belong to them"""
+    c = f.detail.get('replay_cfg') or f.cfg
+    if c.get('scenario') != 'gens':
+        c = {'scenario': 'gens', 'n': c.get('n', 8), 'cap': 4, 'x': 6}
+    o = run_replay(c, 1)
+    if 'crash' in o:
+        return True, o
+    r = o['reference']
+    bad = []
+    for k in ('gi', 'hi', 'g'):
+        got = o[k + '_compressed']
+        for idx, (a, b) in enumerate(zip(got, r[k])):
+            if a != b:
+                bad.append('%s[%d] differs from the documented derivation' % (k, idx))
+                break
+        if len(got) != len(r[k]):
+            bad.append('%s has %d elements, expected %d' % (k, len(got), len(r[k])))
+    if o['h_compressed'] != r['h']:
+        bad.append('value generator is not the basepoint')
+    allenc = o['gi_compressed'] + o['hi_compressed'] + o['g_compressed'] + [o['h_compressed']]
+    if len(set(allenc)) != len(allenc):
+        bad.append('generators coincide')
+    if o['identity'] in allenc:
+        bad.append('a generator is the identity')
+    if o['g_compressed_accessor'] != o['g_compressed'] or o['h_compressed_accessor'] != o['h_compressed']:
+        bad.append('compressed accessor mismatch')
+    inter = []
+    for a, b in zip(o['gi_compressed'], o['hi_compressed']):
+        inter += [a, b]
+    for k, _, enc in o['precomp_units']:
+        if inter[k] != enc:
+            bad.append('precomputed table slot %d is not the interleaved generator' % k)
+            break
+    return (len(bad) > 0), bad[:4]
+
+
 def relation_disagrees(f):
     """C02: the library's verdict differs from the independent unoptimised evaluation of the relation
     (replay crate, refimpl.rs) on an honest proof or on a perturbed proof of the same configuration"""
